@@ -430,7 +430,14 @@ def minimize_lbfgsb(
                 ),
             )
         else:
-            return checkpoint
+            # same state as the checkpoint, but with the actual stop reason
+            res = copy.copy(checkpoint)
+            res.update(
+                message=istate.task_str,
+                success=istate.is_success,
+                status=istate.warnflag,
+            )
+            return res
 
     # Compute the first gradient if no checkpoint provided
     if checkpoint is None:
@@ -658,7 +665,7 @@ def minimize_lbfgsb(
         istate.task_str = "CONVERGENCE: NORM_OF_PROJECTED_GRADIENT_<=_PGTOL"
         istate.is_success = True
         istate.warnflag = 1
-    elif istate.nit == maxiter:
+    elif istate.nit >= maxiter:
         istate.task_str = "STOP: TOTAL NO. of ITERATIONS REACHED LIMIT"
         istate.is_success = True
         istate.warnflag = 1
